@@ -107,6 +107,26 @@ class NormalNll(Spec):
         return res
 
 
+class NormalRegularization(NormalNll):
+    """NormalFamily.regularization(x, loc, scale) -- the public entry point of the priors' regularity terms -- on a plain tensor:
+    entry by entry the same 1/2 ((x - loc)/scale)^2 + log(scale) + C, for every prior layout (0-d, vector or matrix scale alike),
+    carrying no weights."""
+    target = DIST + ":NormalFamily.regularization"
+
+    def configs(self):
+        return [dict(layout=l, weighted=False) for l in ("ind_prior", "ind_prior_sources", "pop_prior_vec", "pop_prior_mat")]
+
+    def setup(self, cx, cfg):
+        d = NormalNll.setup(self, cx, cfg)
+        d["args"] = (d["cls"], d["x"], d["loc"], d["scale"])          # a plain tensor, as the priors are evaluated
+        return d
+
+
+class NormalNllPublic(NormalNll):
+    """NormalFamily.nll (the public entry point of the attachment terms): the same entry-wise formula, weights passed through."""
+    target = DIST + ":NormalFamily.nll"
+
+
 class NormalJac(NormalNll):
     """NormalFamily._nll_jacobian(x, loc, scale)[e] = (x - loc)/scale^2 (derivative of the density term in x)."""
     target = DIST + ":NormalFamily._nll_jacobian"
@@ -412,7 +432,7 @@ class BernoulliNll(Spec):
         return res
 
 
-UNITS = [BernoulliNll(), MixtureNormalNll(), NormalNll(), NormalJac(), NormalBoth(), WeibullLogSurvival(), WeibullLogHazard(), WeibullNll(),
+UNITS = [BernoulliNll(), MixtureNormalNll(), NormalNll(), NormalNllPublic(), NormalRegularization(), NormalJac(), NormalBoth(), WeibullLogSurvival(), WeibullLogHazard(), WeibullNll(),
          ReparamNu(), ReparamNuSources(), ExpNegNLogNu()]
 CALLEES = []
 ASSUMPTIONS = [
